@@ -7,7 +7,7 @@ use crate::tape::Tape;
 
 /// Named exclusion switch for the known `PartialEq<str> for JsStr` defect (finding C11-a): form/hint
 /// strings that are a proper prefix or a proper extension of a valid form/hint are not generated.
-pub const EXCLUDE_KNOWN_STR_EQ_PREFIX_FORMS: bool = true;
+pub const EXCLUDE_KNOWN_STR_EQ_PREFIX_FORMS: bool = false;
 
 pub struct JsCase {
     pub src: String,
